@@ -247,8 +247,32 @@ def run(ctx: Ctx) -> int:
     mv = ctx.func("_actions:ActionParser._move_parser_actions")
     sc = [s for s in walk_local(mv) if isinstance(s, ast.Assign) and root_name(s.targets[0]) == "required_args" and isinstance(s.value, ast.SetComp)]
     up = [c for c in calls_in(mv) if call_leaf(c) == "update" and dotted(c.func.value) == "parser.required_args" and c.args and root_name(c.args[0]) == "required_args"]
-    ok = bool(sc) and bool(up) and "subparser.required_args" in ast.unparse(sc[0].value.generators[0].iter) and not sc[0].value.generators[0].ifs and "prefix" in ast.unparse(sc[0].value.elt)
+    ok = bool(sc) and bool(up) and "subparser.required_args" in ast.unparse(sc[0].value.generators[0].iter) and not sc[0].value.generators[0].ifs
     ctx.oblige("C06.d", ok, sc[0] if sc else mv, "an inner parser's required keys are carried over (prefixed) to the outer parser" if ok else "required keys of an inner parser are lost or filtered when it is attached", fn=mv, construct="move required_args")
+    # configuration KEYS of the moved parser (required keys, action dests, group dests) are built from the dest form
+    # of the option name (dashes replaced), option STRINGS from the raw name: `--inner-app` has the key `inner_app`
+    norm = [s for s in walk_local(mv) if isinstance(s, ast.Assign) and isinstance(s.targets[0], ast.Name) and isinstance(s.value, ast.Call) and call_leaf(s.value) == "replace" and [const_str(a) for a in s.value.args] == ["-", "_"]]
+    ctx.need(len(norm) == 1, "_move_parser_actions: <dest> = <prefix>.replace('-', '_')")
+    dvar = norm[0].targets[0].id
+    rawvar = root_name(norm[0].value.func)
+    key_sites = []
+    if sc:
+        key_sites.append(("required key", sc[0].value.elt, sc[0]))
+    for s in walk_local(mv):
+        if isinstance(s, ast.Assign) and any(isinstance(t, ast.Attribute) and t.attr == "dest" for t in s.targets):
+            key_sites.append(("dest", s.value, s))
+    ctx.floor("C06.d-moved-keys", len(key_sites), 3)
+    gmv = ctx.cfg(mv)
+    for what, e, node in key_sites:
+        names = {x.id for x in ast.walk(e) if isinstance(x, ast.Name)}
+        ok = dvar in names and rawvar not in names and gmv.dominates(gmv.cn(norm), gmv.cn(node))
+        ctx.oblige(
+            "C06.d",
+            ok,
+            node,
+            f"{what} of the moved parser is built from the dest form `{dvar}`" if ok else f"{what} of the moved parser is built from the raw option name `{rawvar}` (or before `{dvar}` exists): for an option with a dash (`--inner-app`) the key `inner-app.x` never matches the dest `inner_app.x` - a required argument can never be satisfied / a class group is not found under its key",
+            fn=mv,
+        )
 
     n_rm = 0
     for fq, fn in ctx.repo.all_funcs():
